@@ -440,6 +440,9 @@ func absorbOne(o operation, api bool, p int, fk string, f, retry int, want, want
 		run.Violation("transient-changes-state/"+o.name+"/"+strings.ReplaceAll(reqKind, " ", "-")+"/"+strings.ReplaceAll(fk, ":", ""), fmt.Sprintf("%d transient fault(s) %s on %s (request %d): %s returned nil but the registry's end state differs from the fault-free run", fired, fk, reqKind, p, o.name), wit)
 	default:
 		run.Count("transient_faults_absorbed", 1)
+		if p == 1 && f == 1 {
+			run.Sample(map[string]any{"operation": o.name, "referrers_api": api, "fault": fk, "consecutive_faults": fired, "at_request": p, "request_kind": reqKind, "retry_limit": retry, "result": "absorbed, result and end state equal the fault-free run"})
+		}
 	}
 }
 
